@@ -17,7 +17,7 @@ TECHNIQUE = "runtime monitoring: class-invariant contracts + explicit reference 
 RULE = ("all chains n=2..8, all rectangular grids and triangular grids (periodic and open_x) with sides 2..6 including l_x != l_y, all "
         "cubic grids with sides 2..4 (quick); larger bounds in thorough; non-trivial = constructed or refused instance with >= 2 sites; "
         "distinct = (class, sides, boundary)")
-MIN_NONTRIVIAL = {"quick": 100, "thorough": 150}
+MIN_NONTRIVIAL = {"quick": 100, "thorough": 200}
 TIMEOUT = {"quick": 900, "thorough": 3600}
 ASSUMPTIONS = ["default-constructed lattices (only side lengths and the open_x flag vary) plus one non-default hop_signs/coord_num instance per class for the round trip",
                "cubic lattice has no adjacency method: its adjacency is derived from get_nearest_neighbors"]
@@ -27,15 +27,15 @@ REQUIRED_COUNTERS = {"constructed": 100, "roundtrips": 100, "invariant_evaluatio
 def gen_cases(tier, seed):
     q = tier == "quick"
     cases = []
-    for n in range(2, 9 if q else 13):
+    for n in range(2, 9 if q else 25):
         cases.append({"cls": "chain", "dims": [n], "open": False})
-    top = 7 if q else 8
+    top = 7 if q else 10
     for lx in range(2, top):
         for ly in range(2, top):
             cases.append({"cls": "grid", "dims": [lx, ly], "open": False})
             cases.append({"cls": "tri", "dims": [lx, ly], "open": False})
             cases.append({"cls": "tri", "dims": [lx, ly], "open": True})
-    for lx, ly, lz in itertools.product(range(2, 5), repeat=3):
+    for lx, ly, lz in itertools.product(range(2, 5 if q else 6), repeat=3):
         cases.append({"cls": "cubic", "dims": [lx, ly, lz], "open": False})
     for i, c in enumerate(cases):
         c["group"] = "g%d" % (i % 16)
